@@ -15,7 +15,7 @@ TV : premise P6, the glue of the HMC / NUTS kernels with blackjax (Trace_Glue): 
      model with a transformed parameter, dict model), blackjax starts at the current
      position with that log-density, its output position is written back and fully
      refreshed, other parameters and the tuning state are untouched.
-Premises decided in depth under their own ids: P1 acceptance rule = C05, P2 corrections =
+Premises decided in depth under their own ids: P0 target density = C02, P1 acceptance rule = C05, P2 corrections =
 C06, P3 exact conditionals = C13, P4 sequencing / coherence = C09, P5 frozen tuning = C11.
 A reduced conformance run of P1-P5 (same trace specs, fewer scenarios) is part of this
 check as well, so that a broken premise is reported under C04 too (keys `premise:P<k>:...`),
@@ -64,6 +64,15 @@ def run(chk: Check):
 def premises(chk, rng):
     """Reduced conformance of the premises P1-P3 (decided in depth by C05 / C06 / C13)."""
     from harness import gibbs_driver, mh_driver, parallel, proposals_driver as P
+    # P0: the density every kernel reads (Model.log_prob) is the joint density of the model: every distribution node
+    # is a factor, also one that is not attached to a variable
+    from checks.c02 import TV_CFG as LP_CFG
+    from harness import logprob_driver as L
+    lt = [L.symbolic_trace(rng) for _ in range(60 if chk.quick else 600)]
+    lt += [L.numeric_trace(rng, nm, nassign=2) for nm in L.FAMILY]
+    chk.tv("Trace_LogProb.tla", lt, tag="premise_P0_target_density", next_="TNext2", cfg_extra=LP_CFG, timeout=1200,
+           keyfn=lambda r: f"premise:P0:{r.trace['hdr'].get('family', 'symbolic')}:{r.conjunct}",
+           describe=lambda r: str(r.trace["hdr"].get("family") or r.trace["hdr"].get("plan"))[:300])
     # P1: acceptance rule of mh_step
     cmb = mh_driver.combos()
     seeds = [rng.randrange(1 << 30) for _ in range(8 if chk.quick else 64)]
